@@ -158,6 +158,11 @@ impl RingStub {
             *(cqe as *mut u64) = user_data;
             *((cqe + 8) as *mut i32) = res;
             *((cqe + 12) as *mut u32) = 0;
+            if self.cqe_size == 32 {
+                // the second half of a big completion carries data of its own
+                *((cqe + 16) as *mut u64) = user_data ^ 0x5555_5555_5555_5555;
+                *((cqe + 24) as *mut u64) = !user_data;
+            }
         }
         self.a32(self.cq_ring + H_TAIL).store(tail.wrapping_add(1), Ordering::Release);
     }
@@ -414,6 +419,13 @@ fn run_ring(dec: Dec, opts: &RunOpts) -> RunOut {
                                 let Some(want) = posted.pop_front() else {
                                     return Some(Violation { sig: "cq|completion-from-nowhere".into(), detail: format!("get_next_cqe returned user_data {ud:#x} although nothing is pending (cq head {} tail {})", stub.cq_head(), stub.cq_tail()) });
                                 };
+                                if cqe32 && ud == want {
+                                    // the reference covers the whole 32-byte entry
+                                    let (w2, w3) = unsafe { (*(p as *const u64).add(2), *(p as *const u64).add(3)) };
+                                    if w2 != want ^ 0x5555_5555_5555_5555 || w3 != !want {
+                                        return Some(Violation { sig: "cq|big-completion-content".into(), detail: format!("completion {} of a CQE32 ring: the second half of the entry reads {w2:#x} {w3:#x}, the kernel wrote {:#x} {:#x}", want >> 32, want ^ 0x5555_5555_5555_5555, !want) });
+                                    }
+                                }
                                 if ud != want {
                                     return Some(Violation { sig: "cq|out-of-order-or-duplicate".into(), detail: format!("expected completion {} got {} (cq head {} tail {})", want >> 32, ud >> 32, stub.cq_head(), stub.cq_tail()) });
                                 }
